@@ -117,6 +117,9 @@ pub struct Coverage {
     pub spurious_queue_rounds: u64,
     pub c01_value_checks: u64,
     pub c01_skipped_noneq_cutoff: u64,
+    pub memo_calls: u64,
+    pub memo_hits: u64,
+    pub memo_recreated: u64,
 }
 
 pub struct Model {
@@ -311,21 +314,58 @@ impl Model {
         }
     }
 
-    /// Would making `hid` necessary trip the engine's deliberate "defining bind is not
-    /// necessary" panic? (generation guard only, never an oracle)
+    /// Is bind `b` kept necessary by an observer of its own (and so are all binds enclosing it)?
+    /// `without` = an observer to disregard.
+    pub fn pinned(&self, b: Hid, without: Option<usize>) -> bool {
+        let direct = self
+            .obs
+            .iter()
+            .enumerate()
+            .any(|(i, o)| o.hid == b && Some(i) != without && matches!(o.state, OState::Created | OState::InUse));
+        if !direct || self.nodes[b].invalid {
+            return false;
+        }
+        match self.nodes[b].scope {
+            None => true,
+            Some((ob, og)) => self.nodes[ob].gen == Some(og) && self.pinned(ob, without),
+        }
+    }
+
+    /// Relaxation R4 (generation guard only, never an oracle): a valid node built by a bind
+    /// closure may only be (or stay) needed from outside while its defining bind is kept
+    /// necessary by an observer of its own. The engine deliberately panics otherwise ("trying to
+    /// make a node necessary whose defining bind is not necessary").
     pub fn can_observe(&self, hid: Hid) -> bool {
         let becoming = self.cone(std::iter::once(hid));
         for m in becoming {
-            if self.necessary.contains(&m) {
-                continue;
-            }
             let n = &self.nodes[m];
             if let Some((b, g)) = n.scope {
                 if n.invalid {
                     continue;
                 }
-                let bn = &self.nodes[b];
-                if bn.invalid || !self.necessary.contains(&b) || bn.gen != Some(g) {
+                if self.nodes[b].gen != Some(g) || !self.pinned(b, None) {
+                    return false;
+                }
+            }
+        }
+        true
+    }
+
+    /// May observer `oid` end (last handle dropped / disallowed) without leaving a bind-built
+    /// node needed while its defining bind is not pinned?
+    pub fn can_end_observer(&self, oid: usize) -> bool {
+        let roots: Vec<Hid> = self
+            .obs
+            .iter()
+            .enumerate()
+            .filter(|(i, o)| *i != oid && matches!(o.state, OState::Created | OState::InUse))
+            .map(|(_, o)| o.hid)
+            .collect();
+        let nec = self.cone(roots.into_iter());
+        for m in nec {
+            let n = &self.nodes[m];
+            if let Some((b, g)) = n.scope {
+                if !n.invalid && self.nodes[b].gen == Some(g) && !self.pinned(b, Some(oid)) {
                     return false;
                 }
             }
